@@ -222,9 +222,11 @@ type Exec struct {
 	allocBound *smt.Term
 	lastRetPaths []*smt.Term
 	ghostNames map[string]bool
-	branchMemo    map[*smt.Term]*smt.Term
+	branchAns     []branchRec
+	pins          []pinRec
 	branchDir     string
 	branchQueries int
+	pinTried      map[*smt.Term]int
 	pendingGhost []pendingGhostCheck
 	allocSeq int
 	noSafety int
